@@ -63,8 +63,12 @@ def build_agent(sc, events, proto):
 
     def on_reply(req, fields):
         events.append(dict(e="resp", es=fields["es"],
-                           vbs=[[absoid(o), -1 if v == EOMV else dec_int(v[2:])] for o, v in fields["vbs"]]))
+                           vbs=[[absoid(o), -1 if v == EOMV else 0 if v == NULL else dec_int(v[2:])] for o, v in fields["vbs"]]))
     ag.on_request, ag.on_reply = on_request, on_reply
+    if sc.get("err"):
+        # scripted error-status reply to the k-th request (C08: walk-style operations propagate it)
+        k, es, ei = sc["err"]["at"], sc["err"]["es"], sc["err"]["ei"]
+        ag.script = lambda req: dict(es=es, ei=ei, vbs=[(o, NULL) for o, _, _ in req["vbs"]]) if ag.nreq == k + ag.ndisco else None
     return ag
 
 
@@ -77,6 +81,16 @@ async def run_scenario(sc):
     ag = build_agent(sc, events, proto)
     conc, absoid = mapping(sc)
     c = make_client(ag, proto)
+    import puresnmp.util as U
+    real_time = U.time
+    if sc.get("ticks"):
+        t = [sc.get("t0", 5000)]
+
+        def clock():
+            v = t[0]
+            t[0] += sc["ticks"][0]
+            return v
+        U.time = clock
     roots = [OID(oidstr(conc(r))) for r in sc["roots"]]
     sroots = [oidstr(conc(r)) for r in sc["roots"]]
     bulk = sc.get("bulk", 0)
@@ -132,6 +146,8 @@ async def run_scenario(sc):
         events.append(dict(e="end", outcome="BUDGET"))
     except Exception as ex:       # noqa
         events.append(dict(e="end", outcome=exc_name(ex), snmp=is_snmp_error(ex)))
+    finally:
+        U.time = real_time
     return dict(scenario=sc, events=events)
 
 
